@@ -26,7 +26,7 @@ func (c11) Budget(tier string) int {
 	if tier == "thorough" {
 		return 120000
 	}
-	return 4600
+	return 23000
 }
 
 func (c11) Describe() engine.Info {
